@@ -90,10 +90,15 @@ TInvoke ==
          expNoF == IF acyc /\ F # {} THEN ExpectedRun(g, T, L, {}, tg) ELSE exp
          missingSrc == \E i \in need : \E f \in ManIn(St(g, i)) \cup ToS(St(g, i).oo) :
                           Prod(g, f) = 0 /\ ~Exists(T, f)
+         \* the cases in which the report is owed: a declared explicit / implicit input of a needed statement, or an order-only
+         \* input of a statement that has to run (for a statement with nothing to do a vanished order-only input is moot);
+         \* missingSrc, the wider notion, is what excuses an error exit
+         mustMiss == \E i \in need : \/ \E f \in ToS(St(g, i).ex) \cup ToS(St(g, i).im) : Prod(g, f) = 0 /\ ~Exists(T, f)
+                                     \/ i \in exp /\ \E f \in ToS(St(g, i).oo) : Prod(g, f) = 0 /\ ~Exists(T, f)
      IN iv' = [active |-> TRUE, targets |-> tg, j |-> E.j, k |-> E.k, dry |-> E.dry, tok |-> E.tok,
                fail |-> E.fail, T0 |-> T, acyc |-> acyc, need |-> need, cyc |-> IF acyc THEN {} ELSE CycleStmts(g, T, L, need), exp |-> exp, expS |-> expS,
                expNoF |-> expNoF, kfT |-> (exp \ expNoF) \cap FT,
-               missingSrc |-> missingSrc, editrun |-> E.editrun, intr |-> E.intr,
+               missingSrc |-> missingSrc, mustMiss |-> mustMiss, editrun |-> E.editrun, intr |-> E.intr,
                started |-> <<>>, doneOK |-> {}, failed |-> {}, codes |-> {}, run |-> {}, nfail |-> 0,
                skipped |-> {}, ticks |-> {}, stStarted |-> {}, stFinished |-> {}, cnt |-> [tot |-> 0, st |-> 0, fin |-> 0],
                interrupted |-> FALSE, killed |-> {}, partial |-> {}, startsAfterBudget |-> 0, loaded |-> NoLogs, kfSeen |-> ""]
@@ -175,7 +180,7 @@ TStart ==
                \cup (IF s.rsp /\ E.rsp # s.rsptxt THEN {V("C16", "response file does not hold the declared content at start", "")} ELSE {})
          v5 == (IF i \in Downstream(g, T, L, iv.failed) THEN {V("C05", "command downstream of a failed command was started", "")} ELSE {})
                \cup (IF ~BudgetLeft THEN {V("C05", "command started after the failure budget was used up", "")} ELSE {})
-               \cup (IF iv.missingSrc THEN {V("C05", "command started although a declared source is missing", "")} ELSE {})
+               \cup (IF iv.mustMiss THEN {V("C05", "command started although a declared source is missing", "")} ELSE {})
          v6 == (IF iv.tok < 0 /\ Cardinality(runNow) > iv.j THEN {V("C06", "more commands running than -j allows", "")} ELSE {})
                \cup (IF poolBad THEN {V("C06", "more commands running in a pool than its depth", "")} ELSE {})
                \cup (IF i \in ToS(iv.started) THEN {V("C06", "command started twice in one invocation", "")} ELSE {})
@@ -287,7 +292,7 @@ TExit ==
                  THEN {V("C05", "with failure budget left, a command independent of the failures was not started", kf)} ELSE {}
          v05d == IF iv.run # {} /\ ~iv.interrupted
                  THEN {V("C05", "ninja exited while commands were still running", "")} ELSE {}
-         v05e == IF iv.missingSrc /\ iv.acyc /\ (ok \/ E.mc # "missing")
+         v05e == IF iv.mustMiss /\ iv.acyc /\ (ok \/ E.mc # "missing")
                  THEN {V("C05", "missing source without rule was not reported", "")} ELSE {}
          v06 == (IF iv.tok >= 0 /\ E.fifo # iv.tok THEN {V("C06", "jobserver tokens not all returned at exit", "")} ELSE {})
                 \cup (IF E.mc = "stuck" THEN {V("C06", "build ended with 'stuck'", "")} ELSE {})
